@@ -131,7 +131,7 @@ def generate(rng: random.Random, tier: str):
 def malform(rng, g):
     g = copy.deepcopy(g)
     n = g["nids"]["shape"][0]
-    k = rng.choice(["len", "idtype", "floatids", "misslen", "vlen_mixed_rank", "vlen_mixed_dtype", "stale_md", "empty_name", "axis_absent"])
+    k = rng.choice(["len", "idtype", "floatids", "misslen", "vlen_mixed_rank", "vlen_mixed_dtype", "stale_md", "stale_md", "empty_name", "axis_absent"])
     g["malform"] = k
     if k == "len":
         g["nprops"] = dict(g["nprops"] or {})
@@ -161,8 +161,15 @@ def malform(rng, g):
             els[-1] = gg.rand_array(rng, b, [2])
         g["nprops"]["bad"] = {"values": {"vlen": els}, "missing": None}
     elif k == "stale_md":
+        # the caller's metadata names a property that is not written, on the node or the edge side; in half of the cases that side has
+        # NO property at all (props=None: no props group is created), so the clean-up after the rejection meets a group without `props`
         g["md"] = dict(g["md"])
-        g["md"]["nprops_md"] = {"ghost": {"identifier": "ghost", "dtype": "int8"}}
+        side = rng.choice(["n", "e"])
+        g["md"][side + "props_md"] = {"ghost": {"identifier": "ghost", "dtype": "int8"}}
+        if rng.random() < 0.5:
+            g[side + "props"] = None
+            if side == "n":
+                g["md"]["axes"] = None
     elif k == "empty_name":
         g["nprops"] = dict(g["nprops"] or {})
         g["nprops"][""] = {"values": gg.rand_array(rng, "int32", [n]), "missing": None}
